@@ -57,6 +57,24 @@ func (f *intFn) expr(e ast.Expr) string {
 		if v.Op == token.SUB {
 			return "(- " + f.expr(v.X) + ")"
 		}
+		if v.Op == token.ADD {
+			return f.expr(v.X)
+		}
+	case *ast.CallExpr:
+		if id, ok := v.Fun.(*ast.Ident); ok && (id.Name == "min" || id.Name == "max") && len(v.Args) >= 1 {
+			op := "Z.min"
+			if id.Name == "max" {
+				op = "Z.max"
+			}
+			acc := f.expr(v.Args[0])
+			for _, a := range v.Args[1:] {
+				acc = "(" + op + " " + acc + " " + f.expr(a) + ")"
+			}
+			return acc
+		}
+		if id, ok := v.Fun.(*ast.Ident); ok && id.Name == "int" && len(v.Args) == 1 {
+			return f.expr(v.Args[0])
+		}
 	case *ast.BinaryExpr:
 		switch v.Op {
 		case token.ADD:
@@ -103,16 +121,93 @@ func (f *intFn) cond(e ast.Expr) string {
 	return ""
 }
 
-// stmts translates a statement list followed by the continuation k (a Coq expression over the variables).
-func (f *intFn) stmts(l []ast.Stmt, k string, allowReturn bool) string {
-	if len(l) == 0 {
-		return k
+// stmts translates a statement list in continuation style: what follows an if statement is
+// translated into both of its branches, so early returns inside branches are handled; a
+// statement list must end in a return on every path. The result is exponential in the number
+// of sequential if statements, which is fine for the small arithmetic helpers this is used on
+// (a limit guards against anything larger).
+func (f *intFn) stmts(l []ast.Stmt, depth int) string {
+	if depth > 4096 {
+		fail("intfunc: function too large to translate")
 	}
-	rest := func() string { return f.stmts(l[1:], k, allowReturn) }
+	if len(l) == 0 {
+		fail("intfunc: a path does not end in return")
+	}
+	rest := l[1:]
 	switch s := l[0].(type) {
+	case *ast.BlockStmt:
+		return f.stmts(append(append([]ast.Stmt{}, s.List...), rest...), depth+1)
+	case *ast.DeclStmt:
+		gd, ok := s.Decl.(*ast.GenDecl)
+		if !ok || gd.Tok != token.VAR {
+			fail("intfunc: declaration")
+		}
+		out := ""
+		for _, sp := range gd.Specs {
+			vs := sp.(*ast.ValueSpec)
+			if vs.Type != nil && !isIntType(vs.Type) {
+				fail("intfunc: non-int variable")
+			}
+			for i, n := range vs.Names {
+				val := "0"
+				if i < len(vs.Values) {
+					val = f.expr(vs.Values[i])
+				}
+				f.vars = append(f.vars, cq(n.Name))
+				out += "let " + cq(n.Name) + " := " + val + " in\n  "
+			}
+		}
+		return out + f.stmts(rest, depth+1)
 	case *ast.AssignStmt:
-		if len(s.Lhs) != 1 || len(s.Rhs) != 1 {
-			fail("intfunc: multiple assignment")
+		if len(s.Lhs) != len(s.Rhs) {
+			fail("intfunc: assignment arity")
+		}
+		if s.Tok == token.DEFINE {
+			// evaluate all right-hand sides first (Go semantics), then bind
+			vals := make([]string, len(s.Rhs))
+			for i := range s.Rhs {
+				vals[i] = f.expr(s.Rhs[i])
+			}
+			out := ""
+			for i, lh := range s.Lhs {
+				id, ok := lh.(*ast.Ident)
+				if !ok {
+					fail("intfunc: define target")
+				}
+				out += "let " + cq(id.Name) + "' := " + vals[i] + " in\n  "
+			}
+			for _, lh := range s.Lhs {
+				id := lh.(*ast.Ident)
+				known := false
+				for _, x := range f.vars {
+					if x == cq(id.Name) {
+						known = true
+					}
+				}
+				if !known {
+					f.vars = append(f.vars, cq(id.Name))
+				}
+				out += "let " + cq(id.Name) + " := " + cq(id.Name) + "' in\n  "
+			}
+			return out + f.stmts(rest, depth+1)
+		}
+		if len(s.Lhs) != 1 {
+			// parallel assignment: temporaries first
+			vals := make([]string, len(s.Rhs))
+			for i := range s.Rhs {
+				vals[i] = f.expr(s.Rhs[i])
+			}
+			if s.Tok != token.ASSIGN {
+				fail("intfunc: parallel compound assignment")
+			}
+			out := ""
+			for i, lh := range s.Lhs {
+				out += "let " + f.expr(lh) + "' := " + vals[i] + " in\n  "
+			}
+			for _, lh := range s.Lhs {
+				out += "let " + f.expr(lh) + " := " + f.expr(lh) + "' in\n  "
+			}
+			return out + f.stmts(rest, depth+1)
 		}
 		id, ok := s.Lhs[0].(*ast.Ident)
 		if !ok {
@@ -127,41 +222,40 @@ func (f *intFn) stmts(l []ast.Stmt, k string, allowReturn bool) string {
 			rhs = "(" + x + " + " + f.expr(s.Rhs[0]) + ")"
 		case token.SUB_ASSIGN:
 			rhs = "(" + x + " - " + f.expr(s.Rhs[0]) + ")"
+		case token.MUL_ASSIGN:
+			rhs = "(" + x + " * " + f.expr(s.Rhs[0]) + ")"
 		default:
 			fail("intfunc: assignment operator %s", s.Tok)
 		}
-		return "let " + x + " := " + rhs + " in\n  " + rest()
+		return "let " + x + " := " + rhs + " in\n  " + f.stmts(rest, depth+1)
 	case *ast.IncDecStmt:
 		x := f.expr(s.X)
 		op := " + 1"
 		if s.Tok == token.DEC {
 			op = " - 1"
 		}
-		return "let " + x + " := (" + x + op + ") in\n  " + rest()
+		return "let " + x + " := (" + x + op + ") in\n  " + f.stmts(rest, depth+1)
 	case *ast.IfStmt:
 		if s.Init != nil {
 			fail("intfunc: if with init")
 		}
-		thenE := f.stmts(s.Body.List, f.tuple(), false)
-		elseE := f.tuple()
+		nv := len(f.vars)
+		thenE := f.stmts(append(append([]ast.Stmt{}, s.Body.List...), rest...), depth*2+1)
+		f.vars = f.vars[:nv]
+		var elseL []ast.Stmt
 		if s.Else != nil {
-			switch e := s.Else.(type) {
-			case *ast.BlockStmt:
-				elseE = f.stmts(e.List, f.tuple(), false)
-			case *ast.IfStmt:
-				elseE = f.stmts([]ast.Stmt{e}, f.tuple(), false)
-			default:
-				fail("intfunc: else form")
-			}
+			elseL = []ast.Stmt{s.Else}
 		}
-		return "let '" + f.tuple() + " := (if " + f.cond(s.Cond) + " then " + thenE + " else " + elseE + ") in\n  " + rest()
+		elseE := f.stmts(append(elseL, rest...), depth*2+1)
+		f.vars = f.vars[:nv]
+		return "(if " + f.cond(s.Cond) + " then\n  " + thenE + "\n  else\n  " + elseE + ")"
 	case *ast.ReturnStmt:
-		if !allowReturn || len(l) != 1 {
-			fail("intfunc: return not in final position")
-		}
 		parts := make([]string, len(s.Results))
 		for i, r := range s.Results {
 			parts[i] = f.expr(r)
+		}
+		if len(parts) == 0 {
+			fail("intfunc: bare return")
 		}
 		return "(" + strings.Join(parts, ", ") + ")"
 	}
@@ -203,7 +297,7 @@ func intFunc(repo, file, name string) string {
 			nres++
 		}
 		res := strings.TrimSuffix(strings.Repeat("Z * ", nres), " * ")
-		body := f.stmts(fd.Body.List, "", true)
+		body := f.stmts(fd.Body.List, 0)
 		return fmt.Sprintf("Definition go_%s (%s : Z) : %s :=\n  %s.\n", name, strings.Join(f.vars, " "), res, body)
 	}
 	fail("intfunc: function %s not found in %s", name, file)
